@@ -57,6 +57,7 @@ pub fn run(tier: &str) -> i32 {
     // E2 part: a crash before every file-mutating call of create/delete/reopen programs
     let q = tier == "quick";
     let plans = vec![crate::props::c02::Plan {
+        fixed: None,
         name: "c12-crash",
         cfg: Cfg { prov: true, ..Cfg::default2() },
         prefix: "",
